@@ -3,6 +3,7 @@ exactly (the comparison itself is evaluated inside Coq)."""
 import collections
 import hashlib
 import json
+import os
 import traceback
 
 from . import common
@@ -44,7 +45,7 @@ class Unit:
 def run_unit(rep, unit, cases, scratch, oracle_on_all=True):
     """Returns number of mismatches."""
     import os
-    cp = "/verif/corpus/unit_%s.json" % unit.name
+    cp = os.path.join(common.VERIF, "corpus", "unit_%s.json" % unit.name)
     if os.path.exists(cp):             # minimised past failures run first
         with open(cp) as fh:
             cases = json.load(fh) + list(cases)
